@@ -116,6 +116,14 @@ def detect(i, tier, props):
             t = time.time()
             rc, out = sh('./check %s --tier %s' % (p, tier), cwd=HERE, env={'REPO_DIR': wt, 'VERIF_NO_EVIDENCE': '1'})
             viol = [l for l in out.splitlines() if l.startswith('VIOLATION')]
+            if viol and p == m['property']:
+                # keep the first replay artefact: `./check --replay seeded/<id>/replay.json` fails on the mutated tree
+                # and passes on /repo
+                src = viol[0].split('replay=', 1)[1].strip()
+                if os.path.exists(src):
+                    rec = json.load(open(src))
+                    with open(os.path.join(d, 'replay.json'), 'w') as f:
+                        json.dump(rec, f, indent=1, sort_keys=True)
             fam = [l.strip() for l in out.splitlines() if l.strip().startswith('family=')]
             res[p] = {'exit': rc, 'violation_lines': len(viol), 'first': (fam[0][:200] if fam else ''), 'wall_s': round(time.time() - t, 1)}
     m.setdefault('detection', {}).setdefault(tier, {}).update(res)
@@ -125,9 +133,25 @@ def detect(i, tier, props):
     return i, res
 
 
+def replay(i):
+    """the kept replay artefact must fail against the mutated tree and pass against /repo"""
+    d = os.path.join(SEEDED, i)
+    rp = os.path.join(d, 'replay.json')
+    if not os.path.exists(rp):
+        return i, 'no replay.json'
+    with Worktree(i + 'r') as wt:
+        rc, out = sh('git apply %s/patch.diff' % d, cwd=wt)
+        rc_m, _ = sh('./check --replay %s' % rp, cwd=HERE, env={'REPO_DIR': wt})
+    rc_p, _ = sh('./check --replay %s' % rp, cwd=HERE)
+    m = load_meta(i)
+    m['replay'] = {'on_mutant_exit': rc_m, 'on_repo_exit': rc_p}
+    save_meta(i, m)
+    return i, 'ok' if (rc_m == 1 and rc_p == 0) else 'UNEXPECTED mutant=%d repo=%d' % (rc_m, rc_p)
+
+
 def main():
     ap = argparse.ArgumentParser()
-    ap.add_argument('cmd', choices=['confirm', 'detect', 'table'])
+    ap.add_argument('cmd', choices=['confirm', 'detect', 'table', 'replay'])
     ap.add_argument('ids', nargs='*')
     ap.add_argument('--tier', default='quick')
     ap.add_argument('--props', default='')
@@ -139,11 +163,16 @@ def main():
         with concurrent.futures.ThreadPoolExecutor(a.j) as ex:
             for i, ok, note in ex.map(confirm, ids):
                 print('%-10s %s %s' % (i, 'CONFIRMED' if ok else 'REJECTED', note))
+    elif a.cmd == 'replay':
+        with concurrent.futures.ThreadPoolExecutor(a.j) as ex:
+            for i, r in ex.map(replay, ids):
+                print('%-10s %s' % (i, r))
     elif a.cmd == 'detect':
         props = [p for p in a.props.split(',') if p]
         for i in ids:
             i, res = detect(i, a.tier, props)
             print('%-10s %s' % (i, json.dumps(res)))
+        sh('rm -rf /tmp/verif_out_*')
     else:
         print('| seeded change | property | what it needs | confirmed | quick check | thorough check |')
         print('|---|---|---|---|---|---|')
